@@ -245,7 +245,7 @@ func cmdCheck(args []string) int {
 	if *tier == "thorough" {
 		mutantSummary = runMutantsForRules(*repo, pr.Rules)
 		seededSummary = runSeededForProperty(*repo, *verif, *pid)
-		benignSummary = runBenignForThorough(*repo, pr.Rules)
+		benignSummary = runBenignForThorough(*repo, *verif, pr.Rules)
 	}
 
 	knownSet := map[string]KnownFinding{}
